@@ -42,6 +42,7 @@ Inductive case :=
 (** concurrent direct callers of one processor: exporter shutdowns seen, error classes returned *)
 | CDStorm (hasx : bool) (xshut : N) (errs : list err)
 | CDStorm2 (hasx : bool) (at_return : list N) (late : N) (errs : list err)
+| CDCancel (hasx : bool) (xshut late : N) (first : err) (later : list err)
 (** one metric reader used directly and through [reg] providers *)
 | CR (r : rk) (reg : N) (ops : list rop) (obs : list obs)
 (** failing processors: ids for which ForceFlush and Shutdown report an error *)
@@ -174,6 +175,8 @@ Definition check_case (c : case) : list N :=
       flag (Nat.eqb (length ops) (length obs) && dspec_ok (has_std k) (combine ops obs)) V_SPECFAIL
   | CDStorm hasx xs errs =>
       flag (dstorm_ok hasx (n2 xs) errs) V_SPECFAIL
+  | CDCancel hasx xs late e1 later =>
+      flag (dcancel_ok hasx (n2 xs) (n2 late) e1 later) V_SPECFAIL
   | CDStorm2 hasx ar late errs =>
       flag (dstorm2_ok hasx (map n2 ar) (n2 late) errs) V_SPECFAIL
   | CR r reg ops obs =>
